@@ -213,6 +213,22 @@ func runWire(c *ctx) error {
 			bad := append(append([]byte{}, raw2...), rb(1+rng.Intn(30))...)
 			_, derr = client.UntrustedDeserializeGCAServerMap(bad)
 			t.Emit(hx.J{"a": "Stream", "typ": "servermap", "k": len(m), "wellformed": false, "ok": derr == nil, "same": true})
+			// one entry with a location at the top of the two-byte length range, cut short at several places: refused
+			{
+				ll := []int{65530, 65531, 65533, 65535, 65529, 300}[rng.Intn(6)]
+				var kk glow.PublicKey
+				copy(kk[:], rb(32))
+				one, _ := client.SerializeGCAServerMap(map[glow.PublicKey]client.GCAServer{kk: {Location: strings.Repeat("w", ll), HttpPort: 8080, TcpPort: 9090, UdpPort: 7}})
+				for _, cut := range []int{1, 2, 6, 7, 100, len(one) - 40, len(one) / 2} {
+					if cut <= 0 || cut >= len(one) {
+						continue
+					}
+					_, derr = client.UntrustedDeserializeGCAServerMap(one[:len(one)-cut])
+					t.Emit(hx.J{"a": "Stream", "typ": "servermap", "k": 1, "wellformed": false, "ok": derr == nil, "same": true})
+				}
+				_, derr = client.UntrustedDeserializeGCAServerMap(one)
+				t.Emit(hx.J{"a": "Stream", "typ": "servermap", "k": 1, "wellformed": true, "ok": derr == nil, "same": derr == nil})
+			}
 		}
 	}
 	// weekly statistics: 0..2 devices, streams of 0..3 records, truncated streams
